@@ -4,8 +4,14 @@ use error_set::ErrContext;
 use iggy::error::IggyError;
 use std::fmt::Debug;
 use std::future::Future;
+#[cfg(not(kani))]
 use tokio::fs;
+#[cfg(kani)]
+use iggy::verif_model::shim::fs;
+#[cfg(not(kani))]
 use tokio::io::AsyncWriteExt;
+#[cfg(kani)]
+use iggy::verif_model::fs::io_model::AsyncWriteExt;
 
 #[cfg(test)]
 use mockall::automock;
